@@ -175,6 +175,14 @@ def r1(ctx, R):
     wi = ctx.func("DynBaseRefDict.wrap_impl")
     rets = q.returns(wi)
     rs = q.raises(wi, "ValueError")
+    for spec, want in (("ItemSpaceImpl._init_root", "self"), ("DynamicSpaceImpl._init_root", "parent.rootspace")):
+        ir_ = ctx.func(spec)
+        ws_ = [st for st, t in q.attr_writes(ir_, attr="rootspace", recv="self")]
+        R.inst("%s: rootspace = %s (every ItemSpace is the root of its own dynamic tree)" % (spec, want))
+        if len(ws_) != 1 or q.anorm(ir_, ws_[0].value) != want or q.guards_of(ir_, ws_[0]):
+            R.bad(ir_, ir_.node, "an ItemSpace nested in a dynamic space takes the outer instance as the root of its tree: its "
+                                 "references are bound to the enclosing instance's objects, shared by all inner instances",
+                  stmt="rootspace =")
     R.inst("wrap_impl: absolute (is_relative false) keeps the original reference")
     keep = [r_ for r_ in rets if norm(r_.value) == "value" and ("value.is_relative", "F") in q.guards_of(wi, r_)]
     if not keep:
